@@ -305,7 +305,17 @@ func (p *sortProcessor) lessDirectRead(a, b *iqr.Record) bool {
 }
 
 func (p *sortProcessor) Rewind() {
-	// Nothing to do.
+	// The final result is normally kept and served again by
+	// GetFinalResultIfExists(). But it is handed out by reference: commands
+	// behind the sort (head, where, dedup, ...) and the merger of parallel
+	// clones (MergeIQRs) discard records from it in place. Then it can no
+	// longer be served again, and it must not be merged with the input that
+	// is about to be read again either; start over.
+	if p.hasFinalResult && p.resultsSoFar.NumberOfRecords() != p.finalNumRecs {
+		p.resultsSoFar = nil
+		p.hasFinalResult = false
+		p.finalNumRecs = 0
+	}
 }
 
 func (p *sortProcessor) Cleanup() {
